@@ -28,6 +28,16 @@ func init() {
 				"while B is ready RemoveWallet with 4 wrong passphrases must be refused; in every state pending work is completed and then: Wallets() omits B, the raw database (every bucket, incl. keystore) contains neither B's wallet id nor any of its script hashes or encoded addresses, "+
 				"and wallet A's coins, balances and address grouping still equal the reference ledger (C01 oracle), also for transactions that paid or spent both wallets; after a re-import B converges to the reference again; distinct_nontrivial = distinct completed observations")
 			cov["bounds"] = map[string]interface{}{"depth": depth, "opts": opts}
+			// the removed wallet holds PENDING records (unconfirmed staking / binding deposits, an
+			// unconfirmed payment) when it is removed
+			popts := map[string]interface{}{"remove": true, "relay": true, "relay_templates": []string{"sb", "bb", "in"}, "pending_blocks": []string{"cp"},
+				"templates": []string{"e", "ab"}, "patterns": []string{"E"}, "max_reorg": 1, "max_queue": 1, "max_height": 5, "max_relay": 2}
+			pend, err := runBFS(c.Bin, c.Scratch, bfsCfg{Model: "c01", Opts: popts, Depth: map[bool]int{false: 5, true: 7}[c.Tier == "thorough"], Workers: c.Workers, Deadline: dl, Recycle: 150, OpenTags: openTags(c)})
+			if err != nil {
+				return nil, nil, nil, err
+			}
+			cov["pending_records_pass"] = map[string]interface{}{"states": pend.States, "transitions": pend.Transitions, "depth_completed": pend.DepthDone, "exhaustive": pend.Exhaustive, "opts": popts}
+			out.Violations = append(out.Violations, pend.Violations...)
 			// "a restart between any two removal steps": every commit inside the removal (phase 1,
 			// each phase-2 round, the final round) is a stop point; the wallet is restarted through
 			// the real start-up path and the worker must finish the removal by itself
